@@ -73,7 +73,8 @@ def make_config(sel: dict[str, Any]) -> dict[str, Any]:
     bound_forms = {
         "none": {},
         "scalar": {"lower_bounds": -4.0, "upper_bounds": 8.0},
-        "array": {"lower_bounds": [-4.0, -2.0, 0.0][:V], "upper_bounds": [8.0, 1.0, 16.0][:V]},
+        # (the second variable has equal lower and upper bounds: consistent, so accepted)
+        "array": {"lower_bounds": [-4.0, -1.0, 0.0][:V], "upper_bounds": [8.0, -1.0, 16.0][:V]},
         "half": {"lower_bounds": [-4.0, -np.inf, 0.0][:V]},
     }
     mask_forms = {"none": None, "scalar": True, "array": [True, False, True][:V]}
@@ -157,6 +158,11 @@ def invalid_configs() -> list[tuple[str, dict[str, Any]]]:
         ("linear-columns", with_(linear_constraints={"coefficients": [[1.0, 2.0]], "lower_bounds": 0.0, "upper_bounds": 1.0})),
         ("linear-bounds-shape", with_(linear_constraints={"coefficients": [[1.0, 2.0, 3.0]], "lower_bounds": [0.0, 1.0], "upper_bounds": 1.0})),
         ("linear-lower>upper", with_(linear_constraints={"coefficients": [[1.0, 2.0, 3.0]], "lower_bounds": 2.0, "upper_bounds": 1.0})),
+        ("linear-lower>upper:one-row-of-two", with_(linear_constraints={"coefficients": [[1.0, 2.0, 3.0], [0.0, 1.0, 0.0]],
+                                                                       "lower_bounds": [0.0, 2.0], "upper_bounds": [1.0, 1.0]})),
+        ("types-value-low", with_(variables={"initial_values": [0.0, 1.0, 2.0], "types": [1, 0, 1]})),
+        ("boundary-types-value-low", with_(gradient={"boundary_types": [1, 0, 1]})),
+        ("perturbation-types-value-low", with_(gradient={"perturbation_types": [1, 0, 1]})),
         ("nonlinear-lower>upper", with_(nonlinear_constraints={"lower_bounds": [0.0, 3.0], "upper_bounds": [1.0, 2.0]})),
         ("nonlinear-shape", with_(nonlinear_constraints={"lower_bounds": [0.0, 3.0], "upper_bounds": [1.0, 2.0, 3.0]})),
         ("unknown-field", with_(nonsense={"a": 1})),
